@@ -414,6 +414,35 @@ static void run(long i, vh_rng *r)
             vh_max("max_fsg_arcs", narcs);
         }
     }
+    /* every rule of the grammar in turn, from the same parsed object: what one compilation leaves behind in the
+     * jsgf_t (also a refused one) must not show in the next */
+    {
+        int ord2[MAXR + 1], nr = g.nrules, q;
+        for (q = 0; q < nr; ++q) ord2[q] = q;
+        for (q = nr - 1; q > 0; --q) { int b = (int)vh_below(r, (uint32_t)(q + 1)), t = ord2[q]; ord2[q] = ord2[b]; ord2[b] = t; }
+        ord2[nr] = top;
+        for (q = 0; q <= nr; ++q) {
+            int kk = ord2[q], rk = representability(&g, kk), refuse_k, either_k, useraw = vh_chance(r, 0.3); jsgf_rule_t *rr; fsg_model_t *f; lang gk;
+            if (rk < 0) continue;
+            refuse_k = (rk & ~REP_DEAD_ONLY) != REP_OK; either_k = !refuse_k && (rk & REP_DEAD_ONLY);
+            rr = jsgf_get_rule(j, vh_path("g.%s", g.name[kk]));
+            if (!rr) { vh_viol("rule_lookup", "jsgf_get_rule cannot find <g.%s>\n%.600s", g.name[kk], sb.s); break; }
+            vh_ctx("jsgf_build_fsg(in sequence)");
+            f = useraw ? jsgf_build_fsg_raw(j, rr, lmath, lw) : jsgf_build_fsg(j, rr, lmath, lw);
+            if (refuse_k) {
+                if (f) vh_viol("not_refused_in_sequence", "rule <%s> (compilation %d from the same jsgf_t) is not representable but was compiled\n%.900s", g.name[kk], q + 1, sb.s);
+                else vh_count("rules_refused_in_sequence", 1);
+            } else if (!f) {
+                if (!either_k) vh_viol("refused_valid_in_sequence", "rule <%s> (compilation %d from the same jsgf_t) is representable but was refused\n%.900s", g.name[kk], q + 1, sb.s);
+            } else {
+                int e = fsg_lang(f, &gk, NULL);
+                if (e == -2) vh_viol("foreign_word_in_sequence", "rule <%s> compiled as number %d from the same jsgf_t contains a word that is not in the grammar\n%.700s", g.name[kk], q + 1, sb.s);
+                else if (!l_eq(&rl[kk], &gk)) report_diff("language_differs_in_sequence", vh_path("rule <%s> compiled as number %d from the same jsgf_t", g.name[kk], q + 1), &rl[kk], &gk, sb.s);
+                vh_count("rules_compiled_in_sequence", 1);
+            }
+            if (f) fsg_model_free(f);
+        }
+    }
     jsgf_grammar_free(j);
     /* the one-call entry point: uses "the" public rule */
     vh_ctx("jsgf_read_string");
